@@ -371,7 +371,12 @@ func range_(tokens []Token) ([2]int, error) {
 			switch token := token.(type) {
 			case pa.Ident:
 				if token.Value == "infinite" {
-					values[i] = math.MaxInt32
+					// negative infinity as lower bound, positive infinity as upper bound
+					if i == 0 {
+						values[i] = math.MinInt
+					} else {
+						values[i] = math.MaxInt
+					}
 					continue
 				}
 			case pa.Number:
